@@ -163,9 +163,66 @@ def run(ck: Check) -> int:
                     rb = WM.WcMatch(os.fsencode(tmp), e(fp) if fp is not None else None, e(ep) if ep is not None else None, wfl).match()
                     if [os.fsencode(x) for x in rs] != rb:
                         ck.report(Failing('WcMatch(bytes root) is not the encoded WcMatch(str root)', {'api': 'WcMatch', 'pattern': fp, 'exclude': ep, 'flags': wfl}, rs, rb), None)
+            # REALPATH: name/pattern of one type with a root of the other type raises TypeError for EVERY root value, the empty
+            # string included (added after seeded change C18e: `root_dir or '.'` replaced an empty root of the wrong type)
+            old_cwd = os.getcwd()
+            os.chdir(tmp)
+            try:
+                for root in ('', '.', tmp, 'a'):
+                    for flip in (False, True):
+                        nm, pt, rt = ('x.txt', '*.txt', os.fsencode(root)) if not flip else (b'x.txt', b'*.txt', root)
+                        calls = [('globmatch', lambda: G.globmatch(nm, pt, flags=G.REALPATH, root_dir=rt)),
+                                 ('globfilter', lambda: G.globfilter([nm], pt, flags=G.REALPATH, root_dir=rt)),
+                                 ('compile.match', lambda: G.compile(pt, flags=G.REALPATH).match(nm, root_dir=rt)),
+                                 ('compile.filter', lambda: G.compile(pt, flags=G.REALPATH).filter([nm], root_dir=rt))]
+                        for api, call in calls:
+                            sr.evaluations += 1
+                            try:
+                                out = call()
+                                ck.report(Failing(f'{api}: {type(nm).__name__} name and pattern with a {type(rt).__name__} root_dir {rt!r} '
+                                                  'returned an answer', {'api': api, 'name': repr(nm), 'pattern': repr(pt), 'root_dir': repr(rt)},
+                                                  'TypeError', repr(out)), None)
+                            except TypeError:
+                                pass
+                    # same-type empty root = current directory
+                    sr.evaluations += 1
+                    if bool(G.globmatch('x.txt', '*.txt', flags=G.REALPATH, root_dir='')) != bool(G.globmatch(b'x.txt', b'*.txt', flags=G.REALPATH, root_dir=b'')):
+                        ck.report(Failing('empty root_dir: str and bytes answers differ', {'api': 'globmatch', 'root_dir': "''"}, True, False), None)
+            finally:
+                os.chdir(old_cwd)
+            # non-ASCII bytes in file names and in every pattern position: glob(bytes) = the tree paths accepted by globmatch(bytes)
+            # (per-byte, Latin-1 code units; added after seeded change C18f: the last segment was re-encoded with os.fsencode)
+            btmp = os.fsencode(tempfile.mkdtemp(prefix='c18b-', dir='/tmp'))
+            try:
+                os.makedirs(os.path.join(btmp, b'd\xe9', b's\xe8'))
+                os.makedirs(os.path.join(btmp, b'plain'))
+                for f in (b'caf\xe9.txt', b'caf\xc3\xa9.txt', b'cafe.txt', b'd\xe9/\xe8', b'd\xe9/\xc3\xa8', b'd\xe9/s\xe8/\xff', b'plain/\xe9', b'plain/e', b'\xea'):
+                    open(os.path.join(btmp, f), 'w').close()
+                universe = []
+                for dp, dn, fn in os.walk(btmp):
+                    for x in dn + fn:
+                        universe.append(os.path.relpath(os.path.join(dp, x), btmp))
+                bpats = [b'caf\xe9*', b'*\xe9*', b'[\xe8-\xea]', b'd\xe9/*', b'd\xe9/[\xe8]', b'caf?.txt', b'caf??.txt', b'**/\xe8', b'**/[\xe0-\xff]',
+                         b'*/\xe9', b'*/?', b'*/??', b'd\xe9/s\xe8/\xff', b'd?/s?/?', b'caf\xe9.txt', b'**/*\xa9*', b'*[!a-z].txt', b'**/[[:alpha:]]',
+                         b'**/[![:ascii:]]', b'@(caf\xe9|cafe).txt', b'*/@(\xe9|e)', b'{caf\xe9,cafe}.txt']
+                rawp = [br'caf\xe9.*', br'\351a', br'**/\xe8', br'*/\351', br'[\xe8-\xea]']
+                for p, extra in [(p, 0) for p in bpats] + [(p, G.RAWCHARS) for p in rawp]:
+                    fl = G.GLOBSTAR | G.EXTGLOB | G.BRACE | extra
+                    sr.evaluations += 1
+                    got = sorted(G.glob(p, flags=fl, root_dir=btmp))
+                    want = sorted(x for x in universe if G.globmatch(x, p, flags=fl))
+                    if got != want:
+                        ck.report(Failing('glob(bytes pattern with non-ASCII bytes) differs from the tree paths globmatch accepts',
+                                          {'api': 'glob', 'pattern': repr(p), 'flags': fl, 'tree': [repr(x) for x in universe]},
+                                          [repr(x) for x in want], [repr(x) for x in got]), None)
+                    if list(G.iglob(p, flags=fl, root_dir=btmp)) != G.glob(p, flags=fl, root_dir=btmp):
+                        ck.report(Failing('iglob differs from glob on a bytes tree', {'api': 'iglob', 'pattern': repr(p), 'flags': fl}, None, None), None)
+            finally:
+                shutil.rmtree(btmp, ignore_errors=True)
         finally:
             shutil.rmtree(tmp, ignore_errors=True)
-        sr.note = ('translate/compile/match/filter/escape on p and encode(p) for fnmatch and glob; mixed types raise TypeError; '
+        sr.note = ('translate/compile/match/filter/escape on p and encode(p) for fnmatch and glob; mixed types raise TypeError (also a '
+                   'root_dir of the other type under REALPATH, empty root included); glob on a tree with non-ASCII byte names; '
                    'bytes 0x80-0xff vs Latin-1 chars against bracket/POSIX forms; glob and WcMatch on str vs bytes roots (same order)')
     ck.search('bytes-vs-str-api', s_search)
     if drv:
